@@ -58,6 +58,7 @@ def sites(cls: ast.ClassDef) -> list[tuple[str, str, str, ast.AST, str]]:
         for t in tg:
             if isinstance(t, ast.Subscript) and isinstance(t.value, ast.Attribute) and isinstance(t.value.value, ast.Name) and t.value.value.id == "self":
                 mutated.setdefault(t.value.attr, n)
+    declared = {n.target.id: unparse(n.annotation) for n in cls.body if isinstance(n, ast.AnnAssign) and isinstance(n.target, ast.Name)}
     for m in cls.body:
         if not isinstance(m, (ast.FunctionDef, ast.AsyncFunctionDef)):
             continue
@@ -79,6 +80,8 @@ def sites(cls: ast.ClassDef) -> list[tuple[str, str, str, ast.AST, str]]:
                         out.append(("sometimes-copied", t.attr, p, n, unparse(n.value)[:80]))
                     elif READONLY.match(ann[p].strip("'\"")) and t.attr in mutated:
                         out.append(("readonly-mutated", t.attr, p, n, f"{ann[p][:40]}; `{unparse(mutated[t.attr])[:50]}`"))
+                    elif READONLY.match(ann[p].strip("'\"")) and re.match(r"(tuple|frozenset)\[", declared.get(t.attr, "")) and len(brs) == 1:
+                        out.append(("declared-immutable", t.attr, p, n, f"{ann[p][:40]}; {declared[t.attr][:40]}"))
     return out
 
 
@@ -103,6 +106,8 @@ def check(idx: Index, rep: Report, prop: str) -> None:
                 inst = f"{rel}:{c.name}.{fld}"
                 if kind == "sometimes-copied":
                     msg = f"`self.{fld} = {detail}` keeps the caller's `{p}` itself on one branch and a copy on the other: when the argument already has the container type the object shares it with the caller, whose later sort / append / clear changes the object's state (and whose data the object's own updates overwrite)"
+                elif kind == "declared-immutable":
+                    msg = f"`self.{fld} = {p}` stores the argument as it is although the field is declared `{detail.split(';')[1].strip()}` and `{p}` is only known to be a `{detail.split(';')[0]}`: a list argument is kept by reference, so the caller's later changes to it change the object's state without any of the bookkeeping that goes with an assignment of the field"
                 else:
                     msg = f"`self.{fld} = {p}` keeps the argument by reference although `{p}` is declared read-only ({detail.split(';')[0]}) and the class updates the field in place ({detail.split(';')[1].strip()}): a caller's list is written to behind its back, a tuple / generator argument fails later"
                 r.fail(inst, Finding(f"{prop}.A1", f"{mi.name}.{c.name}", f"captured-argument-{kind}:{fld}", msg, f"{rel}:{node.lineno}"))
